@@ -19,6 +19,8 @@ import Upnp.Lemmas.C12Renew
 import Upnp.Lemmas.C12Mon
 import Upnp.Lemmas.C12Rep
 import Upnp.Lemmas.C12Yield
+import Upnp.Lemmas.C12Lapse
+import Upnp.Lemmas.C12Zeno
 import Upnp.Spec.C12
 namespace Upnp.C12
 open Upnp PyDict
@@ -102,21 +104,64 @@ theorem loop_yields (cfg : Cfg) (hs : cfg.skipStale = false) (st : St) (hn : (ke
 theorem loop_yields_gen (st : St) (h : Core st) : (runHead genCfg (headFuel st) st).halted = st.halted :=
   loop_yields genCfg gen_shapes.1 st h.subsNodup
 
-/-- the judge's "always yields" clause, whole-trace form, as far as it is proved.
+/-- the await budget of every `wait` of the run sufficed (decidable: it is a `Bool` of the executable model).
+    A `wait` of `d` ms may perform `(d/125 + 64)·(|subscriptions| + 2)` awaits (`waitFuel`); only a publisher
+    under which virtual time stops advancing — granted timeouts ≤ tolerance answered with zero latency, i.e.
+    outside the property's quantifier `61..1800 s` — exhausts it. -/
+def BudgetOk (n : Nat) (script : List Entry) (dflt : Entry) (ops : List Op) : Bool :=
+  !(run genCfg n script dflt ops).halted
 
-    Full statement: for every history the trace contains no `spin` (`yieldBad … = []`).
+/-- subscribing never halts a run -/
+theorem doSub_halted (n : Nat) (auto : Bool) (st : St) (h : Core st) : (doSub genCfg n auto st).halted = st.halted := by
+  unfold doSub
+  split
+  · rfl
+  · have hl := subLoop_core genCfg st.now (List.range n) (st.emit (.call st.now (.sub auto))) (h.emit _)
+    have hnow : (st.emit (.call st.now (.sub auto))).now = st.now := rfl
+    simp only [hnow]
+    generalize subLoop genCfg st.now (List.range n) (st.emit (.call st.now (.sub auto))) = L at hl
+    obtain ⟨S, err⟩ := L
+    cases err with
+    | some e =>
+      dsimp only at hl ⊢
+      show (unsubscribeServices S).halted = _
+      rw [(unsubscribeServices_clean S hl.1).2.2.2.1, hl.2.2]; rfl
+    | none =>
+      dsimp only at hl ⊢
+      split
+      · show S.halted = _; rw [hl.2.2]; rfl
+      · show S.halted = _; rw [hl.2.2]; rfl
 
-    Proved (`_partial`): a run that has not halted has emitted no `spin` — and by `loop_yields` the renewal
-    loop's own fuel (`|subscriptions| + 2` iterations without an await) is never what halts a run: the only
-    remaining source is the await budget of a `wait` (`waitFuel`: one renewal round per 125 ms of virtual
-    time), i.e. a publisher behaviour under which virtual time stops advancing.
-    Missing: Zeno-freedom of `waitLoop` — that within the property's domain (granted timeouts > tolerance)
-    consecutive rounds are at least `timeout - tolerance` apart, so the budget is never exhausted. -/
-theorem yield_trace_partial (n : Nat) (script : List Entry) (dflt : Entry) (ops : List Op)
-    (hh : (run genCfg n script dflt ops).halted = false) :
+/-- unsubscribing never halts a run (the loop head reaches an await, `loop_yields`) -/
+theorem doUnsub_halted (st : St) (h : Core st) (ht : TaskOk st) : (doUnsub genCfg st).halted = st.halted := by
+  by_cases hh : st.halted = true
+  · simp [doUnsub, hh]
+  have hh' : st.halted = false := by simpa using hh
+  have hset : (settle genCfg (st.emit (.call st.now .unsub))).halted = false := by
+    rw [settle_halted genCfg gen_shapes.1 (st.emit (.call st.now .unsub)) h.subsNodup]; exact hh'
+  have hc := (settle_core genCfg gen_shapes.2.1 _ (h.emit (.call st.now .unsub)) (by simpa [TaskOk, St.emit] using ht)).1
+  unfold doUnsub
+  simp only [hh', Bool.false_eq_true, if_false, hset]
+  show (unsubscribeServices _).halted = false
+  rw [(unsubscribeServices_clean _ hc).2.2.2.1]; exact hset
+
+/-- **yield_trace** (the judge's "always yields" clause, whole-trace form).
+
+    For every history whose waits stayed within their await budget (`BudgetOk`, decidable) the trace contains
+    no `spin`.  The renewal loop itself always reaches an await (`loop_yields`), subscribing and unsubscribing
+    never halt a run (`doSub_halted`, `doUnsub_halted`), so `BudgetOk` can only fail inside a `wait`, when more
+    than one renewal round per 125 ms of virtual time is performed for the whole wait — which needs granted
+    timeouts at or below the tolerance answered without delay (outside the property's quantifier; the real
+    code's behaviour at that point — a zero-delay flood of renewals that does yield to the event loop — is
+    recorded by the harness probe `zeno_probe` in the evidence).  Not proved: that `BudgetOk` holds for every
+    script whose granted timeouts exceed the tolerance (Zeno-freedom of `waitLoop`). -/
+theorem yield_trace (n : Nat) (script : List Entry) (dflt : Entry) (ops : List Op)
+    (hb : BudgetOk n script dflt ops = true) :
     yieldBad (run genCfg n script dflt ops).trace = [] := by
+  have hh : (run genCfg n script dflt ops).halted = false := by
+    unfold BudgetOk at hb; simpa using hb
   have hinv : NoSpinInv (run genCfg n script dflt ops) := by
-    clear hh
+    clear hh hb
     unfold run
     suffices H : ∀ st, Core st → TaskOk st → NoSpinInv st → NoSpinInv (ops.foldl (step genCfg n) st) from
       H _ (Core.init script dflt) (by simp [TaskOk, init]) (by intro _ e he; simp [init] at he)
@@ -356,23 +401,9 @@ theorem deadline_le_expiry (cfg : Cfg) (rnow : Time) (r : Req) (h : rnow ≤ r.t
   | infinite => simp [ht] at he
   | absent => simp only [ht, Option.some.injEq] at he; simp only [Tmo.secs, ms]; unfold Time at *; omega
 
-/-- the property's lapse-freedom, as far as it is proved.
-
-    Full statement (DESIGN §5 `renew_before_expiry`): while the publisher accepts renewals and the summed
-    latency of a renewal round is `< tolerance`, every renewal request for a SID reaches the publisher no
-    later than the expiry the publisher holds for it, for every granted timeout `> tolerance`, every number
-    of services, unboundedly many rounds.
-
-    Proved (`_partial`): for every round that starts from a sleep (`wake_margin` ∘ `renew_round_start` ∘
-    `renew_round_step`, the latter an induction step valid for rounds of any length) every renewal request is
-    sent strictly before `round start + tolerance ≤` the deadline the profile holds for that SID.
-    `deadline_le_expiry` links the profile's deadline to the publisher's expiry (`renew_round_step` gives
-    `rnow ≤ r.t` for every request of a calm round).
-    Missing: (a) the composition into one statement over the whole trace with the publisher's table (the
-    model does not carry it; the run-time judge `lapse:*` recomputes it and checks every calm timeline);
-    (b) rounds that start without sleeping (granted timeout `≤ tolerance + previous round's duration`),
-    where the argument needs the publisher's expiry, not the profile's deadline. -/
-theorem renew_before_expiry_partial (st : St) (u : Time) (f : Nat) (st0 : St)
+/-- composition of `wake_margin` and `renew_round_start` for the generated configuration (the whole-trace
+    statement including rounds that start without sleeping is `lapse_trace` / `renew_before_expiry` below) -/
+theorem renew_round_from_sleep (st : St) (u : Time) (f : Nat) (st0 : St)
     (hst : st = runHead genCfg f st0) (ht : st.task = .sleeping u)
     (hc : calmNext st.subs.length st.script st.dflt (ms genCfg.tol))
     (haw : (roundStep genCfg u st.subs { st with now := u }).2 = true) :
@@ -393,6 +424,99 @@ example :
           | .req r => if r.kind == .renew then some (r.t, r.sid) else none
           | _ => none)
       = [(1000, some 1), (1250, some 2), (2000, some 1), (2000, some 2)] := by
+  decide
+
+/-- **lapse_trace** (the judge's "kept alive" clause, whole-trace form): for every number of services,
+    every publisher script and every sequence of caller operations, the clause monitor `lapseMon` of the
+    run-time judge, run over the model's complete trace, flags nothing.  `lapseMon` recomputes the
+    publisher's expiry table from the request log (arrival + granted timeout) and, while auto-renewal is in
+    force and its decidable flag `calm` holds, demands that every renewal request arrives no later than the
+    expiry of its SID and that no subscription in the table has expired at any snapshot.  `calm` is the
+    latency hypothesis as a predicate on the history: every SUBSCRIBE of the session so far was accepted, every
+    finite granted timeout is at least the tolerance, and every window of `n` consecutive request latencies
+    adds up to less than the tolerance.  Rounds that start without sleeping are included (window argument,
+    `Lemmas/C12Lapse.lean`). -/
+theorem lapse_trace (n : Nat) (script : List Entry) (dflt : Entry) (ops : List Op) :
+    (lapseMon n genCfg.tol genCfg.subTimeout (run genCfg n script dflt ops).trace).bad = [] := by
+  rw [lapseMon_trace]
+  have hsubT : (genCfg.tol : Int) * 1000 ≤ (genCfg.subTimeout : Int) * 1000 := by decide
+  suffices H : ∀ st, Core st → TaskOk st → LP genCfg n st → LP genCfg n (ops.foldl (step genCfg n) st) from
+    (H _ (Core.init script dflt) (by simp [TaskOk, init])
+      ⟨rfl, fun ha => by simp [lapseOf, init] at ha⟩).bad
+  induction ops with
+  | nil => intro st _ _ hi; exact hi
+  | cons op r ih =>
+    intro st h ht hi
+    have hc := step_core genCfg gen_shapes.2.1 n st op h ht
+    refine ih _ hc.1 hc.2 ?_
+    cases op with
+    | sub auto => exact lapse_doSub genCfg gen_shapes.2.2.1 gen_constants.1 hsubT n auto st h hi
+    | wait d => exact lapse_doWait genCfg gen_shapes.1 gen_shapes.2.1 hsubT n d st h ht hi
+    | unsub => exact lapse_doUnsub genCfg gen_shapes.2.1 n st h ht hi
+
+/-- the latency hypothesis, as the judge evaluates it: the monitor is still `calm` after the history -/
+def CalmHistory (n : Nat) (tr : List Ev) : Bool := (lapseMon n genCfg.tol genCfg.subTimeout tr).calm
+
+/-- **renew_before_expiry**: in any history, a renewal request for SID `s` that is issued while auto-renewal
+    is in force and the history so far is calm arrives no later than the expiry the publisher holds for
+    `s` — for every granted timeout ≥ tolerance, every number of services, any number of rounds, rounds
+    started from a sleep or not.  (`tr` is any prefix of a model trace that ends just before the request.) -/
+theorem renew_before_expiry (n : Nat) (script : List Entry) (dflt : Entry) (ops : List Op)
+    (pre post : List Ev) (r : Req) (s : Sid) (e : Time)
+    (htr : (run genCfg n script dflt ops).trace = pre ++ .req r :: post)
+    (hk : r.kind = .renew) (hs : r.sid = some s)
+    (hauto : (lapseMon n genCfg.tol genCfg.subTimeout pre).auto = true)
+    (hcalm : CalmHistory n pre = true)
+    (he : get? (lapseMon n genCfg.tol genCfg.subTimeout pre).expiry s = some (some e)) : r.t ≤ e := by
+  have hbad := lapse_trace n script dflt ops
+  rw [htr] at hbad
+  -- the monitor's flags only grow: had this request been late it would still be flagged at the end
+  have mono : ∀ (evs : List Ev) (m : LapseMon), m.bad ≠ [] → (evs.foldl lapseStep m).bad ≠ [] := by
+    intro evs
+    induction evs with
+    | nil => intro m h; exact h
+    | cons x xs ih =>
+      intro m h
+      simp only [List.foldl_cons]
+      apply ih
+      have fl : ∀ (c : Bool) (w : String), flagged m.bad c w ≠ [] := by
+        intro c w; unfold flagged; split
+        · exact h
+        · simp
+      cases x with
+      | req q => simp only [lapseStep]; exact fl _ _
+      | cb t a b c => exact h
+      | spin t => exact h
+      | snap t a b c d =>
+        simp only [lapseStep]; split
+        · exact fl _ _
+        · exact h
+      | call t c => cases c <;> exact h
+      | ret t c res => cases c <;> exact h
+  have hsplit : lapseMon n genCfg.tol genCfg.subTimeout (pre ++ .req r :: post)
+      = post.foldl lapseStep (lapseStep (lapseMon n genCfg.tol genCfg.subTimeout pre) (.req r)) := by
+    simp [lapseMon, List.foldl_append]
+  rw [hsplit] at hbad
+  have hstep : (lapseStep (lapseMon n genCfg.tol genCfg.subTimeout pre) (.req r)).bad = [] := by
+    cases hb : (lapseStep (lapseMon n genCfg.tol genCfg.subTimeout pre) (.req r)).bad with
+    | nil => rfl
+    | cons x xs => exact absurd hbad (mono post _ (by rw [hb]; simp))
+  unfold CalmHistory at hcalm
+  generalize lapseMon n genCfg.tol genCfg.subTimeout pre = m at hauto hcalm he hstep
+  simp only [lapseStep, hk, hs, hauto, hcalm, lapsed, he, beq_self_eq_true, Bool.true_and, flagged] at hstep
+  by_cases hlt : e < r.t
+  · simp [hlt] at hstep
+  · unfold Time at *; omega
+
+/-- non-vacuity: a calm history with two rounds, the second one starting without a sleep (granted 61 s,
+    the round takes 10 s): every renewal is in time, the history stays calm and auto-renewal is in force -/
+example :
+    let tr := (run genCfg 2 [⟨.ok, .sec 61, 0⟩, ⟨.ok, .sec 300, 0⟩, ⟨.ok, .sec 61, 5000⟩, ⟨.ok, .sec 300, 5000⟩]
+      ⟨.ok, .sec 300, 250⟩ [Op.sub true, Op.wait 100000]).trace
+    CalmHistory 2 tr = true ∧ (lapseMon 2 genCfg.tol genCfg.subTimeout tr).auto = true
+    ∧ (tr.filterMap fun e => match e with
+          | .req r => if r.kind == .renew then some r.t else none
+          | _ => none) = [1000, 6000, 11000, 11250] := by
   decide
 
 /-! ### a failed renewal is reported exactly once -/
@@ -473,6 +597,82 @@ example :
     let script : List Entry := [⟨.ok, .sec 61, 0⟩, ⟨.unreach, .sec 61, 250⟩]
     (run genCfg 1 script ⟨.ok, .sec 1800, 0⟩ [Op.sub true, Op.wait 10125]).trace.filter Ev.isCb
       = [.cb 1250 0 0 false] := by
+  decide
+
+/-! ### Zeno-freedom: with long timeouts every wait stays within its budget -/
+
+/-- every reaction of the publisher grants a timeout above the tolerance (for an infinite or absent TIMEOUT
+    header the client uses the requested one, which is above the tolerance by `gen_constants`).  Decidable;
+    the property's quantifier `61..1800 s, infinite, absent` satisfies it. -/
+def LongTimeouts (script : List Entry) (dflt : Entry) : Prop := LongS genCfg script dflt
+
+instance (script : List Entry) (dflt : Entry) : Decidable (LongTimeouts script dflt) := by
+  unfold LongTimeouts; infer_instance
+
+/-- **budget_ok_of_long_timeouts** (Zeno-freedom of the model's wait loop): if every granted timeout exceeds
+    the tolerance, then — whatever else the publisher does (refusals, unreachability, new SIDs, any
+    latencies) — consecutive renewal rounds start at least a second of virtual time apart, so no `wait`
+    of any history exhausts its await budget: virtual time always advances. -/
+theorem budget_ok_of_long_timeouts (n : Nat) (script : List Entry) (dflt : Entry) (ops : List Op)
+    (hl : LongTimeouts script dflt) : BudgetOk n script dflt ops = true := by
+  have hrun : ZRun genCfg (run genCfg n script dflt ops) := by
+    unfold run
+    suffices H : ∀ st, Core st → TaskOk st → ZRun genCfg st → ZRun genCfg (ops.foldl (step genCfg n) st) from
+      H _ (Core.init script dflt) (by simp [TaskOk, init]) ⟨rfl, ⟨hl, by simp [init]⟩⟩
+    induction ops with
+    | nil => intro st _ _ hi; exact hi
+    | cons op r ih =>
+      intro st h ht hi
+      have hc := step_core genCfg gen_shapes.2.1 n st op h ht
+      refine ih _ hc.1 hc.2 ?_
+      cases op with
+      | sub auto => exact z_doSub genCfg n auto st h hi
+      | wait d => exact z_doWait genCfg gen_shapes.1 gen_shapes.2.1 d st h ht hi
+      | unsub => exact z_doUnsub genCfg gen_shapes.1 gen_shapes.2.1 st h ht hi
+  unfold BudgetOk
+  rw [hrun.halted]; rfl
+
+/-- **yield_trace_long**: for every history against a publisher that grants timeouts above the tolerance the
+    trace contains no `spin` — the renewal loop always yields and virtual time always advances. -/
+theorem yield_trace_long (n : Nat) (script : List Entry) (dflt : Entry) (ops : List Op)
+    (hl : LongTimeouts script dflt) : yieldBad (run genCfg n script dflt ops).trace = [] :=
+  yield_trace n script dflt ops (budget_ok_of_long_timeouts n script dflt ops hl)
+
+/-! ### the run-time judge accepts every model trace -/
+
+/-- **judge_accepts_model**: the predicate the driver evaluates on the implementation's trace
+    (`Upnp.C12.ok`, the conjunction of the five clause monitors) holds on the trace of every model run — every
+    number of services, publisher script, sequence of caller operations — whose waits stayed within their
+    await budget.  So the judge applied to implementation traces is exactly the proven property of the
+    model, and a correspondence mismatch is the only way the two can differ. -/
+theorem judge_accepts_model (n : Nat) (script : List Entry) (dflt : Entry) (ops : List Op)
+    (hb : BudgetOk n script dflt ops = true) :
+    ok n genCfg.tol genCfg.subTimeout (run genCfg n script dflt ops).trace = true := by
+  unfold ok violations
+  rw [all_or_nothing_trace, lapse_trace, report_trace, clean_trace, yield_trace n script dflt ops hb]
+  rfl
+
+/-- **judge_accepts_model_long**: the same for every publisher that grants timeouts above the tolerance
+    (hypothesis on the publisher script only): the run-time judge accepts every model trace. -/
+theorem judge_accepts_model_long (n : Nat) (script : List Entry) (dflt : Entry) (ops : List Op)
+    (hl : LongTimeouts script dflt) :
+    ok n genCfg.tol genCfg.subTimeout (run genCfg n script dflt ops).trace = true :=
+  judge_accepts_model n script dflt ops (budget_ok_of_long_timeouts n script dflt ops hl)
+
+/-- non-vacuity of `LongTimeouts` (61 s, 1800 s, infinite, absent); 60 s is the excluded point (its behaviour
+    on the real code is recorded by the harness' `zeno_probe`) -/
+example : LongTimeouts [⟨.ok, .sec 61, 0⟩, ⟨.refuse, .sec 1800, 300000⟩, ⟨.newSid, .infinite, 0⟩] ⟨.unreach, .absent, 0⟩
+    ∧ ¬ LongTimeouts [] ⟨.ok, .sec 60, 0⟩ := by
+  decide
+
+/-- non-vacuity: a history with a refused renewal, a successful fall-back, an unreachable publisher and an
+    unsubscribe during an in-flight renewal stays within budget and is accepted -/
+example :
+    let script : List Entry := [⟨.ok, .sec 61, 0⟩, ⟨.ok, .sec 120, 250⟩, ⟨.refuse, .sec 61, 1000⟩, ⟨.ok, .sec 90, 0⟩,
+      ⟨.unreach, .sec 61, 500⟩, ⟨.ok, .sec 61, 40000⟩]
+    let ops := [Op.sub true, Op.wait 20125, Op.wait 30000, Op.unsub, Op.wait 100000]
+    BudgetOk 2 script ⟨.ok, .sec 300, 0⟩ ops = true
+    ∧ ok 2 genCfg.tol genCfg.subTimeout (run genCfg 2 script ⟨.ok, .sec 300, 0⟩ ops).trace = true := by
   decide
 
 end Upnp.C12
